@@ -57,14 +57,21 @@ def check(repo, res, tier):
     predicates(repo, res, canon, pc, logic, plogic)
     a6(repo, res, canon, pc)
     a8(repo, res, canon, logic)
+    from . import c16 as _c16
+    res.rule('C08.A13', 'adopted C16.K2: the planned start an observation is held to is the configured one divided by the unit '
+                        'factor, not rounded (else it can begin before its planned start)')
+    _borrow(repo, res, tier, _c16, {'C16.K2'}, 'C08.A13')
     from . import initial
-    res.rule('C08.A12', 'initial state: no arrays in use, telescope not in use, no ingest machine reserved')
+    res.rule('C08.A12', 'initial state: no arrays in use, telescope not in use, no ingest machine reserved, an observation has no actual start time')
     initial.check_values(repo, res, 'C08.A12', [('Telescope', 'telescope_use', 0), ('Telescope', 'telescope_status', False),
-                                                ('Scheduler', 'provision_ingest', 0)],
+                                                ('Scheduler', 'provision_ingest', 0), ('Observation', 'ast', None)],
                          {('Telescope', 'telescope_use'): 'arrays that nobody holds are counted as in use for ever: an observation '
                                                           'that needs all arrays never starts',
                           ('Telescope', 'telescope_status'): 'the telescope never reports idle before its first observation',
-                          ('Scheduler', 'provision_ingest'): 'an ingest machine nobody reserved counts against the ingest limit for ever'})
+                          ('Scheduler', 'provision_ingest'): 'an ingest machine nobody reserved counts against the ingest limit for ever',
+                          ('Observation', 'ast'): 'an observation that has not started has a start time: is_finished() turns true '
+                                                  'one duration after that time although the observation never ran (and its arrays '
+                                                  'are "given back" without ever having been taken)'})
     a9(repo, res, canon)
 
 
